@@ -218,6 +218,12 @@ func (_this *RulesEventReceiver) OnUID(value []byte) {
 }
 
 func (_this *RulesEventReceiver) OnTime(value compact_time.Time) {
+	if value.IsZeroValue() {
+		// Both encoders write a time without a time zone type as null, so
+		// validate it (and pass it on) as the null that it will become.
+		_this.OnNull()
+		return
+	}
 	if err := value.Validate(); err != nil {
 		panic(err)
 	}
